@@ -348,6 +348,42 @@ def share_or_copy(fb, rep):
             rep.violation(R, "force-full-clone", "force_full_clone no longer sets the disjoint generation", f.where())
 
 
+_REPR_ELEM = {}
+
+
+def _repr_element_carries_pointer(fb, variant):
+    """does an array of this representation hold GC pointers?  Read from the sibling that already has to know: the arm of
+    `<ValueArray as Trace>::trace` (the on_array! dispatch) for that Repr casts the storage with `unsafe_array::<T>()`; T's type
+    facts say whether it owns a GcPtr / Value (String arrays hold `GcStr` pointers, not inline text)."""
+    if not _REPR_ELEM:
+        tb = None
+        for bid, b in fb.bodies.items():
+            if bid.startswith("<gluon_vm::value::ValueArray as gluon_vm::gc::Trace>::trace") and b.kind == "fn":
+                tb = b
+        if tb is None:
+            return None
+        names = variant_names(fb, "gluon_vm::value::Repr")
+        best = None
+        for bb, place, m, other in enum_switches_any(tb):
+            if len(m) >= len(names) - 1 and (best is None or len(m) > len(best[1])):
+                best = (bb, m, other)
+        if best is None:
+            return None
+        bb, m, other = best
+        for idx, vn in enumerate(names):
+            t = m.get(idx, other)
+            if t is None:
+                continue
+            others = [x for i2, x in m.items() if x != t] + ([other] if other is not None and other != t else [])
+            region = tb.reachable(t, avoid_blocks=[bb]) - tb.reachable(others, avoid_blocks=[bb])
+            for c in tb.calls():
+                if c.bb in region and "ValueArray::unsafe_array" in c.res and c.desc.get("ga"):
+                    row = tb.ty(c.desc["ga"][0])
+                    _REPR_ELEM[vn] = bool(tb.ty_has(row, "gluon_vm::gc::GcPtr", own=True) or tb.ty_has(row, "gluon_vm::value::Value", own=True)
+                                          or tb.ty_has(row, "gluon_vm::value::ValueRepr", own=True) or "GcStr" in row["s"] or "GcPtr<" in row["s"])
+    return _REPR_ELEM.get(variant)
+
+
 def cloner_closed(fb, rep):
     R = "E4c"
     rep.rule(R, "the cloner has an arm for every value representation; pointer-carrying arms allocate a copy or fail")
@@ -387,7 +423,10 @@ def cloner_closed(fb, rep):
                     if mk.index("gluon_vm::gc::GcPtr") in row.get("mo", []):
                         carries = True
             elif adt.endswith("Repr"):
-                carries = vn in ("Array", "Unknown", "Userdata", "Thread")
+                carries = _repr_element_carries_pointer(fb, vn)
+                if carries is None:
+                    rep.anchor_lost(R, "element type of Repr::%s (read from the unsafe_array::<T> casts of <ValueArray as Trace>::trace)" % vn)
+                    continue
             if not carries:
                 rep.ok(R, "%s: %s::%s (no heap pointer) has its own arm" % (fid.rsplit("::", 1)[1], adt.rsplit("::", 1)[1], vn))
                 continue
@@ -578,6 +617,19 @@ def cloner_helpers(fb, rep):
     CL = "gluon_vm::value::Cloner::<'t>::"
     VALS = ("gluon_vm::value::Value", "gluon_vm::value::ValueRepr")
     helpers = ["deep_clone_data", "deep_clone_closure", "deep_clone_app", "deep_clone_array"]
+    # sibling agreement: *every* per-representation helper (role: a Cloner method that receives a pointer to a heap object and returns
+    # the copy) goes through the visited map, not only the ones listed above
+    for bid, x in sorted(fb.bodies.items()):
+        if rep.pid != "C13":
+            break  # duplicated copies lose sharing (C13); they do not free a reachable value (C05)
+        if bid.startswith(CL + "deep_clone_") and x.kind == "fn" and bid.count("::") == CL.count("::") and bid[len(CL):] not in helpers + ["deep_clone_ptr", "deep_clone_inner"]:
+            argc = x.get("argc") or 0
+            if argc >= 2 and ("GcPtr<" in x.local_tstr(2) or "GcStr" in x.local_tstr(2)):
+                if any(c.res == CL + "deep_clone_ptr" for c in x.calls()):
+                    rep.ok(R, "%s allocates through deep_clone_ptr (visited map)" % bid[len(CL):])
+                else:
+                    rep.violation(R, "helper-bypasses-visited|%s" % bid[len(CL):], "%s does not go through deep_clone_ptr while its siblings do: an object of this representation that is "
+                                  "reachable twice is copied twice (sharing lost) and one that reaches itself is cloned without end" % bid[len(CL):], x.where())
     for h in helpers:
         b = fb.body(CL + h)
         if b is None:
